@@ -128,6 +128,43 @@ PROPS = {
         "them.",
         assumptions=["writer/reader round trip is C01/C02's business: a failed write is counted as blocked"],
     ),
+    "C09": dict(
+        level="exploration",
+        floor=50,
+        builds=["harness"],
+        legs=lambda tier, seed, scratch: __import__("c09").legs(tier, seed, scratch),
+        rule=GEN_NOTE + "Even cases bigWig, odd cases bigBed (no entry (0,0): C02's finding). The harness only emits the sink bytes "
+        "plus a sidecar with exactly what went in; the oracle is pybbi/decode.py, an independent decoder written from the "
+        "published layout with struct + zlib only (calibrated on the UCSC-written pybigtools/tests/data/bigBedExample.bb): "
+        "header/zoom directory/autoSql/summary/dataCount consistency, chromosome B+ tree, every R-tree (magic, bounds "
+        "contain all leaves, every node reachable once, count <= blockSize, every non-leaf span contains its subtree, "
+        "leaves contiguous in file order), every block a zlib stream <= uncompressBufSize with <= itemsPerSlot items of "
+        "one chromosome and a leaf span containing its items, decoded records == sidecar input bit for bit, total summary "
+        "and every zoom record == statistics recomputed by the decoder from the decoded records, trailing magic. "
+        "Non-trivial = >= 2 data blocks or >= 1 zoom level; distinct by file hash.",
+        assumptions=[
+            "absence of the u32 count at zoom dataOffset and endFileOffset = index offset are notes, not problems (no reader uses them)",
+            "chromosome-tree key order is only demanded when the input was written with sort type ALL",
+            "zlib (CPython) is the reference inflater",
+        ],
+        technique="runtime monitoring: independent decoder as oracle over generated writer output",
+    ),
+    "C10": dict(
+        level="exploration",
+        floor=50,
+        builds=["harness"],
+        legs=lambda tier, seed, scratch: __import__("c10").legs(tier, seed, scratch),
+        rule="Files come from pybbi/encode.py (independent encoder, cross-checked encode->decode = identity) over the cross "
+        "product {little, big endian} x {zlib levels, raw} x {bigWig section types 1/2/3 mixed, bigBed} x chromosome-tree "
+        "block sizes {1,2,3,256} (1-4 levels) x R-tree fan-out {2,3,5,256} (depth 1-8) x node placement {level order, "
+        "reverse, children first, shuffled, a non-leaf node as the last bytes before the trailing magic} x version 1..4 "
+        "(v1 without summary) x 0-3 zoom levels. The harness subcommand readq executes CHROMS / INFO / SUMMARY / "
+        "INTERVAL / VALUES / ZOOM / AUTOSQL / ITEMCOUNT on BigWigRead/BigBedRead plain, .cached() and GenericBBIRead; the "
+        "answers are compared with the encoder's abstract content model (not with a re-decode) and across flavours. "
+        "Non-trivial = R-tree depth >= 2 or chromosome tree >= 2 levels or big-endian; tags give the layout cells seen.",
+        assumptions=["only well-formed files are in scope (uncompressBufSize >= every block, valSize 8)"],
+        technique="runtime monitoring: independent encoder + content-model oracle over reader answers",
+    ),
     "C11": dict(
         level="exploration",
         floor=20,
@@ -183,6 +220,29 @@ PROPS = {
             "Miri runs the in-memory and temp-file variants with isolation disabled",
         ],
         technique="runtime monitoring: exhaustive call-order enumeration + delay-injected stress with trace + Miri + ThreadSanitizer",
+    ),
+    "C13": dict(
+        level="exploration",
+        floor=50,
+        builds=["harness", "relassert"],
+        legs=lambda tier, seed, scratch: [
+            dict(cmd="c13", name="c13-release", cases=_q(tier, 3000, 60000), stall_s=20),
+            dict(cmd="c13", name="c13-debug-assertions", cases=_q(tier, 1500, 30000), stall_s=20, profile="relassert"),
+        ],
+        rule="Each case takes a valid 3..6-chromosome input (>= 3 items per chromosome) and injects exactly one violation: "
+        "bigWig {out-of-order, overlapping, start > end, end > chromosome length}, bigBed {out-of-order starts, start > "
+        "end, start >= chromosome length}, both {unknown chromosome, chromosomes out of order under ALL, malformed line: "
+        "missing / non-numeric / negative field, empty input} at the {first, middle, last} item of the {first, middle, "
+        "last} chromosome, on the iterator, text-file and index_chroms+parallel sources, one- and two-pass, random "
+        "option vectors; or it is a valid degenerate input {only zero-length items in the whole file / in one chromosome, "
+        "a single item, items only at position 0, a generated valid input incl. zero-length items}. Oracle: invalid => "
+        "Err (not Ok, not a panic) and the sink left behind is rejected by the reader or fully readable; valid => the "
+        "call returns. Termination: the cfg-hook in get_rtreeindex proves divergence when a tree passes 64 levels; "
+        "otherwise a 20 s quiescence watchdog with three isolated re-runs. The second leg repeats the workload in a "
+        "build with debug assertions and overflow checks on (a debug_assert! firing on valid input is a panic a debug "
+        "build user sees). The evidence lists the distinct (type, class, source, pass, position) cells reached.",
+        assumptions=["a valid input refused with an error still satisfies this property (returns); whether the refusal is right is C01/C02's business"],
+        technique="runtime monitoring: fault-class injection + result/panic/divergence monitors",
     ),
     "C07": dict(
         level="exploration",
